@@ -17,7 +17,7 @@ CLAIMED = {
          "For each generated scenario every enumerated crash image (initial image + first i storage mutations) loads without error into a hash-linked chain that lies on one trusted-announced branch, and a new node started on it converges to the peer's best chain. With one storage operation failing the node converges anyway or after a clean restart, with linked chains in memory and on disk (also when it carried on without a restart: what a clean stop leaves must load and lead to the peer's chain). Component level: every crash prefix of generated add / AddNext / save / revert histories loads into a linked chain of added headers; with any single storage operation failing once and the caller saving and trying again, the running and the reloaded repository equal the model chain.",
          E1_NOTE + " An individual Write/Remove of the storage interface is atomic (torn writes inside one call are outside the statement).", "6 C10"),
  "C12": ("exploration", E1_TECH,
-         "With 1-3 untrusted connections sending generated adversarial traffic (plain and in the extmsg envelope) next to an honest trusted peer: the node still converges to the trusted chain, every block of its chain and every block announced to handlers was announced by the trusted peer, no confirmation refers to another block, nothing is reported safe without a trusted sighting, no getdata goes to a connection before it proved chain membership and never for blocks, and no transaction reaches handlers without some verified untrusted connection.",
+         "With 1-3 untrusted connections sending generated adversarial traffic (plain and in the extmsg envelope) next to an honest trusted peer: the node still converges to the trusted chain, every block of its chain and every block announced to handlers was announced by the trusted peer, no confirmation refers to another block, nothing is reported safe without a trusted sighting, no getdata goes to a connection before it proved chain membership and never for blocks, no transaction reaches handlers without some verified untrusted connection, and every relevant transaction the trusted peer announces while the node is in sync reaches the handlers whatever untrusted peers push, announce or withhold (adversaries also send transactions spending missing outputs, refuse connections, and push bad bodies right behind every new block).",
          E1_NOTE, "6 C12"),
  "C16": ("exploration", E2_TECH,
          "For 1-8 concurrent calls with distinct keys and any service behaviour per key (answer, reject, answer twice, silence; before or after the caller's time-out; unsolicited responses) each call returns exactly its own response or RejectError(code, text), or ErrTimeout no earlier than the request time-out and within request + message time-out + 5 s; GetOutputs returns each outpoint's own value and script in order or an error; the same request key issued again after a call ended (answered, rejected or timed out) gets its own answer.",
@@ -26,7 +26,7 @@ CLAIMED = {
          "For service streams with duplicated, future, old and repeated-after-reconnect ids, connection drops at any stream position, slow handlers and slow writes: ids reach each handler strictly consecutively from the declared id, never twice, both handlers in the same order, NextMessageID() = last + 1, content equals the service's message of that id, and with a service that resumes exactly from the declared id nothing is missed.",
          E2_NOTE, "6 C17, App. C"),
  "C18": ("exploration", E2_TECH,
-         "Over accept variants per connection (valid, long-term key, key for another hash, foreign signature, altered counts, replayed accept, none, reject; data sent after, ahead of or without the accept), both connection types, calls issued before/after accept, during disconnects and after reconnects, concurrent subscriptions, slow writes and drops: every Register verifies against the configured key; nothing but register/subscribe/ready is written before a connection's handshake completed; the client's bytes on every connection parse as whole messages; a call that returned nil was written after the handshake; after a forged accept no accept or data callback occurs and IsAccepted() is false.",
+         "Over accept variants per connection (valid, long-term key, key for another hash, foreign signature, altered counts, replayed accept, none, reject; data sent after, ahead of or without the accept), both connection types, calls issued before/after accept, during disconnects and after reconnects, concurrent subscriptions, slow writes and drops: every Register verifies against the configured key; nothing but register/subscribe/ready is written before a connection's handshake completed; the client's bytes on every connection parse as whole messages; a call that returned nil was written after the handshake; after a forged accept no accept or data callback occurs and IsAccepted() is false (accept signatures are made with an independent implementation of the signature hash; connections are also lost right behind a valid accept).",
          E2_NOTE, "6 C18"),
  "C19": ("exploration", E1_TECH,
          "With Stop requested at a tape-chosen instant of chain and transaction scenarios (while dialling, in the handshake, during sync, in sync, around the node's own reconnects, with slow handlers, untrusted connections, connection faults): Stop and Run return within 120 simulated seconds, the stored chain / unconfirmed set / peers equal the in-memory ones, no callback follows Stop's return, no node task survives, the first header request of every connection starts at the stored tip and no block is announced twice without a reorganisation; also with outages of the external output service.",
